@@ -141,10 +141,13 @@ class IterableQueue(Iterator[Elem]):
             self._spare_lids = queue.Queue(maxsize=num_suppliers)
             self._applied_lids = queue.Queue(maxsize=num_suppliers)
             self._used_lids = queue.Queue(maxsize=num_suppliers)
+            self._lids_lock = threading.Lock()
         else:
             self._spare_lids = multiprocessing.Queue(maxsize=num_suppliers)
             self._applied_lids = multiprocessing.Queue(maxsize=num_suppliers)
             self._used_lids = multiprocessing.Queue(maxsize=num_suppliers)
+            self._lids_lock = multiprocessing.Lock()
+        # `_lids_lock` makes a consumer's "move a lid, then check whether all lids are collected" atomic.
         for _ in range(num_suppliers):
             self._spare_lids.put(None)
         # User should not touch these internal helper queues.
@@ -161,6 +164,7 @@ class IterableQueue(Iterator[Elem]):
             self._applied_lids,
             self._used_lids,
             self._can_timeout,
+            self._lids_lock,
         )
 
     def __setstate__(self, zz):
@@ -172,6 +176,7 @@ class IterableQueue(Iterator[Elem]):
             self._applied_lids,
             self._used_lids,
             self._can_timeout,
+            self._lids_lock,
         ) = zz
 
     @property
@@ -250,7 +255,15 @@ class IterableQueue(Iterator[Elem]):
 
         z = self._q.get()
         if z is None:
-            if self._used_lids.full():
+            with self._lids_lock:
+                # Without the lock, two consumers could both find `_used_lids` full
+                # after their respective `put`, and both add the extra end marker.
+                finished = self._used_lids.full()
+                if not finished:
+                    z = self._applied_lids.get()
+                    self._used_lids.put(z)
+                    exhausted = self._used_lids.full()
+            if finished:
                 # Other consumers have removed all the lids and confirmed
                 # there's no more data to come from the queue.
                 # There's no more `None` in `self._applied_lids`.
@@ -262,9 +275,7 @@ class IterableQueue(Iterator[Elem]):
                 # This does not increase the number of `None`s in the queue
                 # as it simply replaces the one that is just taken off the queue.
                 raise StopIteration
-            z = self._applied_lids.get()
-            self._used_lids.put(z)
-            if self._used_lids.full():
+            if exhausted:
                 # This is the first consumer who sees the queue is exhausted.
                 # Put an extra `None` in the queue for other consumers to see.
                 # This is needed because we don't assume nor limit the number
